@@ -40,8 +40,8 @@ func numAPI(tier string) int {
 func init() {
 	runner.Register(&runner.Prop{
 		ID: "C02",
-		Rule: "case = one workload item -> all structures it yields. Items 0..A-1 (A = 10 000 quick / 300 000 thorough): one generated API history (gen/frag: 1..3 tracks, 1..2 segments, 1..3 fragments each with 0..8 samples per op, single/multi-track, full/interval/metadata-only mdat, emsg/prft/free/skip/uuid/unknown children, hostile or tame values) -> the InitSegment, every Fragment built fresh from its spec with and without OptimizeTrun, every MediaSegment with 0..3 sidx boxes and with/without styp, and the whole assembled file decoded by DecodeFile/DecodeFileSR in box-tree and segment mode, one media segment and one fragment of that decoded file as structures of their own (work.PartsOf: MediaSegment.Encode / Fragment.Encode on decoded structures, 1 in 4 with trun optimisation), and the same file with the data addressing of its fragments rewritten on the byte level (gen/frag.Readdress, compared sample by sample with the input through the independent reader ref/frag before use: tfhd.base_data_offset with a first trun that has NO data_offset field, base_data_offset at the moof / file start with data_offsets relative to it, default-base-is-moof clear with the implied bases of 8.8.7.1, later runs without data_offset) decoded through one file path: the file in box-tree mode, segment mode and segment mode with optimisation, one media segment, one fragment (the witness holds the rewritten bytes); one member of the sidx family (work.PickSidxRecipe, recipe string in the witness: Version 0/1 x EarliestPresentationTime and FirstOffset from {0, 1000, 2^31+5, 2^32-1, 2^32, 2^32+3003, 2^40+7, 2^64-16} x 0..3 references with ordinary values or with the bit fields at their limits x made by CreateSidx plus public fields, struct literal, or decoded box whose public fields are then set x alone, in an API-built MediaSegment with a CreateFragment fragment, or in a File: decoded styp+sidx+moof+mdat whose sidx fields are set or whose sidx is replaced, or a File assembled through File.AddChild, in box-tree and segment mode); plus, per history, one member of the codec-configuration family (work.PickRecipe/FromRecipe, a self-contained recipe string kept in the witness): an esds made by CreateEsdsBox with a decoder configuration whose length is swept through windows below 2^7, 2^14 and (few) 2^21, wide enough that the payload of each nested descriptor (DecoderSpecificInfo, DecoderConfigDescriptor, ES_Descriptor) passes limit-2..limit+1 of the base-128 size field, or with the ES_Descriptor flag lattice (streamDependence/URL/OCRstream, all 8 combinations, priority bits, URL lengths 0/1/23/255, the dependent public fields set with the flag and also without it) at small sizes and at the one-digit limit, alone and inside mp4a (CreateAudioSampleEntryBox, with/without btrt), stsd or an init segment; or a Dec3Box literal (there is no constructor) with 1..8 independent substreams with/without dependent ones, NumIndSub left 0 or set to len-1, alone, inside ec-3, through TrakBox.SetEC3Descriptor, and as a decoded one-substream box with appended substreams; plus, per history, one member of the observe-then-mutate family (work.PickHistRecipe, work/mutate.go, recipe string in the witness): a box whose size depends on its kind is made or decoded, read-only observers (0..2 of Size, Info at two levels, SubType, Encode into io.Discard, EncodeSW into a discarded writer; on the box or on its parent) are called, then a public mutator changes the kind. Two in three are UUIDBox histories: kind tfxd v0/v1, tfrf v0/v1, PIFF senc, unknown with 0/4/100 payload bytes, the MSS StreamManifest uuid, or an unlabelled literal; made as a literal + SetUUID + public field, by NewTfxdBox / NewTfrfBox, or decoded from hand-written bytes; relabelled through SetUUID (uuid string, plain hex or base64) to each kind with the public field of that kind set (Tfxd / Tfrf / Senc / UnknownPayload; the fields of the old kind kept or cleared); alone, inside udta (API or decoded container), inside the traf of a CreateFragment fragment, or inside a decoded file (box-tree and segment mode). The rest: SencBox.AddSample with/without subsamples after Create/New/decode+ParseReadBox, SaizBox.AddSampleInfo, TrunBox.AddSample/AddFullSample/AddSamples/SetFirstSampleFlags/RemoveFirstSampleFlags, TfdtBox.SetBaseMediaDecodeTime across 2^32, StsdBox.AddChild, EmsgBox public fields (version flip, strings, data), Ftyp/Styp.AddCompatibleBrands, StscBox.AddEntry/SetSingleSampleDescriptionID, CttsBox.AddSampleCountsAndOffset, MdatBox.SetLazyDataSize/AddSampleData/SetData, alone or inside udta. Besides the usual clauses, each observed history is compared with its twin (the same calls without the observers): the bytes must be identical and Encode must not fail where the twin's succeeds. " +
-			"Remaining items: the shared C01 input list (corpus seeds, hand-built boxes of every registered type and version/flag shape, gentle mutants, bit flips, field values, N1/N2/N3, nesting, sequences; since round 7 with crafted fragment sequences over the lattice base-data-offset-present x default-base-is-moof x data-offset-present of a single-trun fragment, with/without styp, two fragments / two segments, 64-bit mdat header, and up to 16 corpus files rewritten by gen/frag.Readdress) decoded by DecodeBox, DecodeBoxSR, DecodeFile, DecodeFileSR (fragmented files in both encode modes, and one MediaSegment and one Fragment of every decoded fragmented file as structures of their own). " +
+		Rule: "case = one workload item -> all structures it yields. Items 0..A-1 (A = 10 000 quick / 300 000 thorough): one generated API history (gen/frag: 1..3 tracks, 1..2 segments, 1..3 fragments each with 0..8 samples per op, single/multi-track, full/interval/metadata-only mdat, emsg/prft/free/skip/uuid/unknown children, hostile or tame values) -> the InitSegment, every Fragment built fresh from its spec with and without OptimizeTrun, every MediaSegment with 0..3 sidx boxes and with/without styp, and the whole assembled file decoded by DecodeFile/DecodeFileSR in box-tree and segment mode, one media segment and one fragment of that decoded file as structures of their own (work.PartsOf: MediaSegment.Encode / Fragment.Encode on decoded structures, 1 in 4 with trun optimisation), and the same file with the data addressing of its fragments rewritten on the byte level (gen/frag.Readdress, compared sample by sample with the input through the independent reader ref/frag before use: tfhd.base_data_offset with a first trun that has NO data_offset field, base_data_offset at the moof / file start with data_offsets relative to it, default-base-is-moof clear with the implied bases of 8.8.7.1, later runs without data_offset) decoded through one file path: the file in box-tree mode, segment mode and segment mode with optimisation, one media segment, one fragment (the witness holds the rewritten bytes); for histories with two segments the same file laid out with 2 flat or 3 hierarchical sidx boxes at the top level in front of the first segment (gen/frag Layout.TopSidx 2/3), decoded by both file paths in box-tree mode, segment mode and segment mode with optimisation (witness: the bytes); one member of the sidx family (work.PickSidxRecipe, recipe string in the witness: Version 0/1 x EarliestPresentationTime and FirstOffset from {0, 1000, 2^31+5, 2^32-1, 2^32, 2^32+3003, 2^40+7, 2^64-16} x 0..3 references with ordinary values or with the bit fields at their limits x made by CreateSidx plus public fields, struct literal, or decoded box whose public fields are then set x alone, in an API-built MediaSegment with a CreateFragment fragment, or in a File: decoded styp+sidx+moof+mdat whose sidx fields are set or whose sidx is replaced, or a File assembled through File.AddChild, in box-tree and segment mode); plus, per history, one member of the codec-configuration family (work.PickRecipe/FromRecipe, a self-contained recipe string kept in the witness): an esds made by CreateEsdsBox with a decoder configuration whose length is swept through windows below 2^7, 2^14 and (few) 2^21, wide enough that the payload of each nested descriptor (DecoderSpecificInfo, DecoderConfigDescriptor, ES_Descriptor) passes limit-2..limit+1 of the base-128 size field, or with the ES_Descriptor flag lattice (streamDependence/URL/OCRstream, all 8 combinations, priority bits, URL lengths 0/1/23/255, the dependent public fields set with the flag and also without it) at small sizes and at the one-digit limit, alone and inside mp4a (CreateAudioSampleEntryBox, with/without btrt), stsd or an init segment; or a Dec3Box literal (there is no constructor) with 1..8 independent substreams with/without dependent ones, NumIndSub left 0 or set to len-1, alone, inside ec-3, through TrakBox.SetEC3Descriptor, and as a decoded one-substream box with appended substreams; plus, per history, one member of the observe-then-mutate family (work.PickHistRecipe, work/mutate.go, recipe string in the witness): a box whose size depends on its kind is made or decoded, read-only observers (0..2 of Size, Info at two levels, SubType, Encode into io.Discard, EncodeSW into a discarded writer; on the box or on its parent) are called, then a public mutator changes the kind. Two in three are UUIDBox histories: kind tfxd v0/v1, tfrf v0/v1, PIFF senc, unknown with 0/4/100 payload bytes, the MSS StreamManifest uuid, or an unlabelled literal; made as a literal + SetUUID + public field, by NewTfxdBox / NewTfrfBox, or decoded from hand-written bytes; relabelled through SetUUID (uuid string, plain hex or base64) to each kind with the public field of that kind set (Tfxd / Tfrf / Senc / UnknownPayload; the fields of the old kind kept or cleared); alone, inside udta (API or decoded container), inside the traf of a CreateFragment fragment, or inside a decoded file (box-tree and segment mode). The rest: SencBox.AddSample with/without subsamples after Create/New/decode+ParseReadBox, SaizBox.AddSampleInfo, TrunBox.AddSample/AddFullSample/AddSamples/SetFirstSampleFlags/RemoveFirstSampleFlags, TfdtBox.SetBaseMediaDecodeTime across 2^32, StsdBox.AddChild, EmsgBox public fields (version flip, strings, data), Ftyp/Styp.AddCompatibleBrands, StscBox.AddEntry/SetSingleSampleDescriptionID, CttsBox.AddSampleCountsAndOffset, MdatBox.SetLazyDataSize/AddSampleData/SetData, alone or inside udta. Besides the usual clauses, each observed history is compared with its twin (the same calls without the observers): the bytes must be identical and Encode must not fail where the twin's succeeds. " +
+			"Remaining items: the shared C01 input list (corpus seeds, hand-built boxes of every registered type and version/flag shape, gentle mutants, bit flips, field values, N1/N2/N3, nesting, sequences; since round 7 with crafted fragment sequences over the lattice base-data-offset-present x default-base-is-moof x data-offset-present of a single-trun fragment, with/without styp, two fragments / two segments, 64-bit mdat header, and up to 16 corpus files rewritten by gen/frag.Readdress; since round 9 with 30 crafted fragmented files with 1, 2 and 3 top-level sidx boxes in front of the first segment: one per track with different reference_ID, two flat, parent + two children, with/without init segment and styp, with further sidx boxes between the segments) decoded by DecodeBox, DecodeBoxSR, DecodeFile, DecodeFileSR (fragmented files in both encode modes, and one MediaSegment and one Fragment of every decoded fragmented file as structures of their own). " +
 			"Per structure X (fresh instance): s0=Size(); b1=Encode into a buffer; s1=Size(); Info at a PRNG-chosen level into io.Discard; b2=EncodeSW into a FixedSliceWriter of capacity s1+64 and again of capacity exactly s1 (must succeed); 0..2 further Info calls; b3=Encode. Assertions: len(b1)=s1 (minus lazily written mdat payload), s0=s1 unless trun optimisation is on, len(b2)=s1, b3=b1 and second EncodeSW=b2, the reference walker tiles b1 exactly, and for every node of the library tree the node's size field = node.Size() = length of the node encoded on its own = its sub-range of the parent's bytes, children tiling the tail of their parent. " +
 			"Encoders that return an error are outside the property (counted; for decoded structures listed in evidence); but when Encode fails, a fresh instance is handed to EncodeSW with capacity Size()+64 (Encode allocates exactly Size() bytes, so an encoder that writes more than Size() fails there and succeeds here), and if that reports success its length must equal Size(). Evidence only (census.go, read from the written bytes with a parser of the 14496-1 / TS 102 366 syntax, and from public fields of API objects): descriptor payload sizes at the size-field limits with the number of size digits, ES_Descriptor flag combinations, dec3 substream shapes and NumIndSub against len(EC3Subs); for every written fragment with exactly one trun the level it was encoded at and tf_flags/tr_flags (single_trun_fragment_written); Version and size of written sidx boxes and the public 64-bit fields of API sidx boxes against the 32-bit limit (sidx_written, sidx_api_fields); addressing modes produced by Readdress (readdressed_traf). non-trivial = a structure whose Encode succeeded and that contains at least one box; distinct by hash of (kind, b1). evaluations = structures checked.",
 		Assumptions: []string{
@@ -112,6 +112,40 @@ func runHistory(c *runner.Ctx, h *genfrag.History) {
 	// one member of the observe-then-mutate family (work/mutate.go): a box with a kind-dependent size is made or
 	// decoded, observed (Size / Info / SubType / Encode into a discarded buffer), changed through a public mutator
 	for _, s := range work.FromRecipe(c, work.PickHistRecipe(c.Rand)) {
+		check(c, s, nil)
+	}
+	// (after that, for the same reason) the same history laid out with a file-level index of several sidx boxes
+	topIndexed(c, h)
+}
+
+// topIndexed: the history assembled by gen/frag.Build with 2 or 3 sidx boxes at
+// the top level in front of the first segment (Layout.TopSidx 2: two flat
+// boxes each over half of the segments; 3: a parent referencing two children;
+// needs two segments), decoded through both file paths, in box-tree mode,
+// segment mode and segment mode with optimisation. The witness holds the bytes.
+func topIndexed(c *runner.Ctx, h *genfrag.History) {
+	if len(h.Segments) < 2 {
+		c.Count("top_sidx_layout_needs_two_segments", 1)
+		return
+	}
+	h2 := *h
+	h2.Layout.TopSidx = 2 + c.Rand.Intn(2)
+	h2.Layout.SidxVersion = byte(c.Rand.Intn(2))
+	fb := work.BuildFileBytes(c, &h2)
+	if fb == nil {
+		c.Count("top_sidx_layout_not_built", 1)
+		return
+	}
+	in := work.Input{Name: "api-built file, several top-level sidx", Desc: fmt.Sprintf("gen/frag.Build with Layout.TopSidx=%d, sidx version %d", h2.Layout.TopSidx, h2.Layout.SidxVersion), Gen: "api-file-top-sidx", Data: fb}
+	for _, s := range work.FromInput(c, in) {
+		if !strings.HasPrefix(s.Kind, "decoded/"+work.PFile) {
+			continue
+		}
+		if x := s.New(); x != nil {
+			if f, ok := x.(*mp4.File); ok {
+				c.Seen("top_level_sidx_boxes_in_decoded_file", fmt.Sprintf("%s: %d", s.Kind, len(f.Sidxs)))
+			}
+		}
 		check(c, s, nil)
 	}
 }
@@ -310,6 +344,16 @@ func check(c *runner.Ctx, s work.Struct, h *genfrag.History) {
 	c.Evals(1)
 	c.Count("structures", 1)
 	c.Seen("structure_kind", s.Kind)
+	if f, ok := x.(*mp4.File); ok && f.IsFragmented() {
+		n, mode := len(f.Sidxs), "box-tree mode"
+		if n > 4 {
+			n = 4
+		}
+		if s.SegMode {
+			mode = "segment mode"
+		}
+		c.Seen("fragmented_file_top_level_sidx_boxes", fmt.Sprintf("%d (%s)", n, mode))
+	}
 	var s0, s1 uint64
 	if pi := c.Guard(func() { s0 = x.Size() }); pi != nil {
 		c.Count("panics_left_to_C04", 1)
